@@ -11,6 +11,7 @@ All theorems are about the executable model `NV.C08.exec` / `runCmds` (NV/C08/Mo
 `sc : Scripts`, ALL fuels and ALL command lists.
 -/
 import NV.C08.Safe2
+import NV.C08.Tie
 
 namespace NV.C08
 
